@@ -1,6 +1,7 @@
 package props
 
 import (
+	"strconv"
 	"context"
 	"fmt"
 	"github.com/ajitpratap0/GoSQLX/pkg/sql/token"
@@ -212,6 +213,9 @@ var h8Probes = []h8Probe{
 	{"tokens-comments", "SELECT a -- one\nFROM t /* two */ WHERE `q` = \"r\"", "tokens", false},
 	{"tokens-strings", "SELECT 'alice', 'b''c', 'tab\\there', $$dollar$$, \"quoted id\" FROM t WHERE x = 'y'", "tokens", false},
 	{"tokens-keywords", "SELECT zerofill, unsigned, ilike, returning FROM straight_join", "tokens", false},
+	{"cancel-at-poll-3", "SELECT a + 1, b * 2, c FROM t WHERE d = 4 AND e IN (5, 6, 7) OR f BETWEEN 8 AND 9 ORDER BY a, b + c", "parse-cancel-at-3", true},
+	{"cancel-profile-expressions", "SELECT a + 1, b * 2, c FROM t WHERE d = 4 AND e IN (5, 6, 7) OR f BETWEEN 8 AND 9 ORDER BY a, b + c", "parse-cancel-profile", true},
+	{"cancel-profile-statements", "SELECT a, b, c, d, e, f, g, h FROM t WHERE a = 1; SELECT i, j, k FROM u WHERE l = 2; SELECT m", "parse-cancel-profile", true},
 	{"recovery", "SELECT 1; SELECT FROM; SELECT 2", "recovery", false},
 	{"recovery-plain-tokens", "SELECT a FROM t WHERE ] ; SELECT 2", "recovery-tokens", false},
 }
@@ -295,7 +299,50 @@ func h8Outcome(tk *tokenizer.Tokenizer, p *parser.Parser, pr h8Probe) map[string
 	}
 	var perr error
 	var tree interface{}
-	if pr.Mode == "parse-pos" {
+	if pr.Mode == "parse-cancel-profile" {
+		// the same call under contexts that turn done from their 1st, 2nd, ... 24th poll on: which of them still
+		// complete is a function of the tokens only
+		// (the probe's own text and select lists of 5, 12, 15, 20 and 31 columns)
+		var prof []string
+		var streams [][]models.TokenWithSpan
+		for _, n := range []int{5, 3, 12, 15, 20, 31} {
+			cols := make([]string, n)
+			for i := range cols {
+				cols[i] = fmt.Sprintf("c%d", i)
+			}
+			if ts, err := mustTokenizer().Tokenize([]byte("SELECT " + strings.Join(cols, ", ") + " FROM t")); err == nil {
+				streams = append(streams, ts)
+			}
+		}
+		streams = append(streams, toks)
+		for si, ts := range streams {
+			// from contexts that outlive the call down to one that is done at once: the first calls complete, so
+			// that nothing the earlier ones did (a cancellation, say) brings the two instances into step
+			for k := 14; k >= 0; k-- {
+				a, e := p.ParseContextFromModelTokens(newCountingCtx(k, context.Canceled), ts)
+				switch {
+				case e != nil:
+					prof = append(prof, fmt.Sprintf("%d.%d:%s", si, k, shapeOf(e).Code+"/"+firstLine(e.Error())))
+				case a != nil:
+					prof = append(prof, fmt.Sprintf("%d.%d:tree/%d", si, k, len(a.Statements)))
+				default:
+					prof = append(prof, fmt.Sprintf("%d.%d:nil", si, k))
+				}
+			}
+		}
+		out["tree"] = strings.Join(prof, " ")
+		return out
+	}
+	if strings.HasPrefix(pr.Mode, "parse-cancel-at-") {
+		// a context that turns done while the call runs (from its k-th poll on): whether the call still completes, and
+		// with what, is a function of the context and the tokens only
+		k, _ := strconv.Atoi(strings.TrimPrefix(pr.Mode, "parse-cancel-at-"))
+		a, e := p.ParseContextFromModelTokens(newCountingCtx(k, context.Canceled), toks)
+		perr = e
+		if a != nil {
+			tree = a
+		}
+	} else if pr.Mode == "parse-pos" {
 		a, e := p.ParseFromModelTokensWithPositions(toks)
 		perr = e
 		if a != nil {
